@@ -658,9 +658,24 @@ def run(ck):
                             par = find_by_id(roots, parts[2][1:])
                             if par is not None and is_sc(par):
                                 under_sc.add(parts[1][1:])
+                    # (with the repaired clone code RcDom detaches the replaced children too: when the breadth-first
+                    # search picked another selectedcontent than the specification, each side has parentless roots
+                    # that are still selectedcontent children on the other side)
+                    under_sc_spec = set()
+
+                    def collect_spec(n, inside):
+                        if inside and n["id"] not in (None, "-"):
+                            under_sc_spec.add(n["id"])
+                        for k in n["kids"]:
+                            collect_spec(k, inside or is_sc(n))
+                        if n["tmpl"] is not None:
+                            collect_spec(n["tmpl"], inside)
+                    for r in sroots:
+                        collect_spec(r, False)
                     sroots = [r for i, r in enumerate(sroots) if i == 0 or r["id"] not in under_sc]
-                    still_bad = roots != sroots
-                    confined = [strip_sc(r) for r in roots] == [strip_sc(r) for r in sroots]
+                    iroots = [r for i, r in enumerate(roots) if i == 0 or r["id"] not in under_sc_spec]
+                    still_bad = iroots != sroots
+                    confined = [strip_sc(r) for r in iroots] == [strip_sc(r) for r in sroots]
                 except Exception:       # noqa
                     confined = False
                 if not sc_filled:
